@@ -118,7 +118,12 @@ def _setup():
 KIND_OF = {'initialization_problem': 'init', 'possible_initialization_problem': 'possible', 'read_out_of_scope': 'init'}
 
 
-def check_exact(ctx, block):
+OTHER_PROGRAM = "print(zq)\nif zc:\n    zp = 1\nprint(zp)\nzu = 2\n"      # has one issue of every judged kind
+ROUTES = ['tifa_analysis()', 'tifa_analysis(other) first', 'tifa_analysis(code) while another submission is loaded',
+          'tifa_analysis(); tifa_analysis(other); tifa_analysis() again']
+
+
+def check_exact(ctx, block, route=0):
     block = _fresh(block)
     lines = [("c = input()", None)]
     render(block, "", lines)
@@ -142,12 +147,35 @@ def check_exact(ctx, block):
     if len(finals) > 1 and any(k != 'none' for k in expect.values()):
         ctx.mark_nontrivial(code)
     cmds.clear_report()
-    cmds.contextualize_report(code)
-    ctx.step('tifa_analysis')
-    t = tifa_analysis()
+    ctx.step(ROUTES[route])
+    if route == 0:
+        cmds.contextualize_report(code)
+        t = tifa_analysis()
+    elif route == 1:
+        # the report's analyser has already analysed another program (given explicitly)
+        cmds.contextualize_report(code)
+        tifa_analysis(OTHER_PROGRAM)
+        t = tifa_analysis()
+    elif route == 2:
+        cmds.contextualize_report(OTHER_PROGRAM)
+        tifa_analysis()
+        t = tifa_analysis(code)
+    else:
+        cmds.contextualize_report(code)
+        tifa_analysis()
+        tifa_analysis(OTHER_PROGRAM)
+        t = tifa_analysis()
     if not t.success:
         ctx.fail({'symptom': 'tifa internal failure'}, program=code, error=repr(t.error)[:100])
         return
+    # the documented accessor must hand out exactly the issues of the analysis just asked for
+    from pedal.tifa.commands import get_issues
+    for label in list(KIND_OF) + ['unused_variable']:
+        via = [(i.location.line, i.fields.get('name')) for i in get_issues(label)]
+        direct = [(i.location.line, i.fields.get('name')) for i in t.issues.get(label, [])]
+        if via != direct:
+            ctx.fail({'symptom': 'get_issues() differs from the issues of the analysis', 'label': label,
+                      'route': ROUTES[route]}, program=code, via_get_issues=via, analysis=direct)
     got = {}
     for label, kind in KIND_OF.items():
         for i in t.issues.get(label, []):
@@ -172,11 +200,11 @@ def check_exact(ctx, block):
     ctx.outcome(','.join(sorted(set(expect.values()))) or 'no-reads')
 
 
-def make_exact(tops, max_top):
+def make_exact(tops, max_top, routes=False):
     def body(ctx):
         n = ctx.choose(max_top, 'n') + 1
         block = [tops[ctx.choose(len(tops), 's%d' % i)] for i in range(n)]
-        check_exact(ctx, block)
+        check_exact(ctx, block, ctx.choose(len(ROUTES), 'route') if routes else 0)
     return body
 
 
@@ -325,7 +353,8 @@ def bounds(tier):
 def phases(tier):
     d1 = _stmts(1, 1)
     d2 = _stmts(2, 1)
-    ph = [Phase('exact-depth1', make_exact(d1, 2), setup=_setup, chunk=300, describe='all sequences of <=2 depth-1 statements'),
+    ph = [Phase('exact-depth1', make_exact(d1, 2, routes=True), setup=_setup, chunk=300,
+                describe='all sequences of <=2 depth-1 statements x 4 analysis routes (plain, after another program, explicit code, re-asked)'),
           Phase('exact-depth2', make_exact(d2, 1), setup=_setup, chunk=300, describe='every depth-2 single statement')]
     d1b = _stmts(1, 2)
     # reduced sets for sequences of three statements
